@@ -352,4 +352,81 @@ func init() {
 		register(&PropSpec{ID: pr.id, Pkgs: []string{"regulator"}, Jobs: regJobs, AssertPrefix: []string{pr.id + "."}, Covers: regCovers, Bounds: regBounds, Outside: regOutside, Assumptions: regAssume,
 			Explanation: "regulator executed symbolically from NewRegulator with symbolic (max, min): " + pr.expl})
 	}
+
+	register(&PropSpec{
+		ID: "C15", Pkgs: []string{""},
+		Jobs: func(tier string) []sym.Job {
+			var js []sym.Job
+			maxN := 3
+			if tier == "thorough" {
+				maxN = 6
+			}
+			for n := 1; n <= maxN; n++ {
+				for ev := 0; ev < 6; ev++ {
+					for obs := 0; obs <= 1; obs++ {
+						js = append(js, sym.Job{Pkg: "", Harness: "Harness_C15", Args: []int{n, ev, obs}})
+					}
+				}
+			}
+			return js
+		},
+		AssertPrefix: []string{"C15."},
+		Covers:       func(tier string) []string { return []string{"C15.own", "C15.hidden-before-close", "C15.folded-hidden"} },
+		Bounds: func(tier string) []string {
+			n := "1..3"
+			if tier == "thorough" {
+				n = "1..6"
+			}
+			return []string{n + " seats; every card a symbolic 2-byte string; fold flags and all numeric fields symbolic; viewer index any int64 (also out of range) and the observer; current event GameClosed and five other events (the code distinguishes only GameClosed)", "every such state, reachable or not"}
+		},
+		Outside:     []string{"more than 6 seats", "player records whose Idx differs from their slice position", "the transport of the prepared state (table layer)"},
+		Assumptions: append([]string{"deep equality of the prepared state with the expected state is decided as one solver obligation (JSON equality in native replays)"}, commonAssumptions...),
+		Explanation: "GameState.AsPlayer / AsObserver executed symbolically on an arbitrary state; result compared with the snapshot transformed by the statement's hiding rules",
+	})
+
+	register(&PropSpec{
+		ID: "C14", Pkgs: []string{""},
+		Jobs: func(tier string) []sym.Job {
+			var js []sym.Job
+			cut := map[string]string{"(*github.com/weedbox/pokerface.game).UpdateCombinationOfAllPlayers": "zero"}
+			maxN := 3
+			if tier == "thorough" {
+				maxN = 6
+			}
+			for n := 2; n <= maxN; n++ {
+				for _, hole := range []int{2, 4} {
+					for sc := 0; sc < 4; sc++ {
+						js = append(js, sym.Job{Pkg: "", Harness: "Harness_C14_Hand", Args: []int{n, hole, sc}, Cfg: sym.JobConfig{Stubs: cut}})
+					}
+				}
+			}
+			js = append(js, sym.Job{Pkg: "", Harness: "Harness_C14_Hand", Args: []int{2, 2, 0}, Cfg: sym.JobConfig{Stubs: cut, ShuffleSwaps: 1}})
+			js = append(js, sym.Job{Pkg: "", Harness: "Harness_C14_Shuffle", Args: []int{4}, Cfg: sym.JobConfig{ShuffleSwaps: 2}})
+			js = append(js, sym.Job{Pkg: "", Harness: "Harness_C14_Shuffle", Args: []int{6}, Cfg: sym.JobConfig{ShuffleSwaps: 1}})
+			if tier == "thorough" {
+				js = append(js, sym.Job{Pkg: "", Harness: "Harness_C14_Shuffle", Args: []int{4}, Cfg: sym.JobConfig{ShuffleSwaps: 3}})
+				js = append(js, sym.Job{Pkg: "", Harness: "Harness_C14_Hand", Args: []int{3, 2, 1}, Cfg: sym.JobConfig{Stubs: cut, ShuffleSwaps: 1}})
+			}
+			js = append(js, sym.Job{Pkg: "", Harness: "Harness_C14_Decks"})
+			// dealing steps from arbitrary closed-round states (burn/board from the top of the deck, hole cards untouched)
+			for n := 2; n <= 3; n++ {
+				for street := 0; street < 4; street++ {
+					js = append(js, sym.Job{Pkg: "", Harness: "Harness_Next", Args: []int{n, 0, 0, street}})
+				}
+			}
+			return js
+		},
+		AssertPrefix: []string{"C14."},
+		Covers:       func(tier string) []string { return []string{"C14.full-board", "C14.early-ending", "C14.shuffled", "C14.decks-built"} },
+		Bounds: func(tier string) []string {
+			n := "2..3"
+			if tier == "thorough" {
+				n = "2..6"
+			}
+			return []string{"whole hands on " + n + " seats, 2 hole cards and 4-with-2-required, deck of n*hole+10 opaque symbolic 2-byte cards (every content, duplicates included), four scripted histories: check/call to showdown, all-in run-out, everybody folds on the flop, fold before the flop; I6 asserted after every operation", "shuffle: rand.Shuffle modelled as k <= 2 (thorough 3) arbitrary in-range swaps on 4..6 symbolic cards; one-swap shuffle followed by a whole hand", "deck builders executed concretely", "dealing steps of Next() from arbitrary closed-round states (Harness_Next)"}
+		},
+		Outside:     []string{"the quality of the permutation produced by math/rand (uniformity) and the real math/rand implementation", "hand evaluation is cut out of the whole-hand harness (UpdateCombinationOfAllPlayers replaced by a no-op; that it writes nothing but Combination is C10's obligation)", "decks shorter than the hand needs (Deal indexes past the end: outside the claim)", "amount-dependent histories beyond the four scripts (chips do not influence dealing; the step harness Harness_Next covers dealing from arbitrary chip states)"},
+		Assumptions: append([]string{"math/rand.Shuffle(n, swap) = a finite sequence of swap(i, j) calls with in-range i, j (its documented contract)"}, commonAssumptions...),
+		Explanation: "game.Deal/Burn/InitializeRound/ShuffleCards and the deck builders executed symbolically on opaque symbolic cards",
+	})
 }
